@@ -20,9 +20,7 @@ import numpy as np
 
 from harness import classify, export as X, graphs as G, progcheck as PC, programs as P, trace as T
 
-KNOWN = ("swv-layout-drift", "take-through-broadcast", "slice-through-generic-blockwise")
-
-
+KNOWN = ("swv-layout-drift", "take-through-broadcast", "slice-through-generic-blockwise", "swv-nested-wrong-values", "broadcast-axis-zero-width-chunk")
 def compute_expr(e):
     import dask
     from dask_array._new_collection import new_collection
@@ -88,6 +86,13 @@ def check_program(ctx, prog, want):
             ctx.fail(sig if sig in KNOWN else f"phase-raises:{nm}", {"program": prog, "phase": nm, "outcome": repr(ex)[:300]}, f"{nm} form raises when computed")
             return
         ctx.count(("phase", nm, type(e).__name__))
+        if nm == "raw":
+            if not (vals[nm].shape == want.shape and np.array_equal(vals[nm], want)):
+                # the raw form already differs from NumPy: C01's finding, not a phase problem; the
+                # phases below are compared with the RAW value
+                ctx.notes["raw_differs_from_numpy"] = ctx.notes.get("raw_differs_from_numpy", 0) + 1
+            want = vals["raw"]
+            continue
         if not (vals[nm].shape == want.shape and np.array_equal(vals[nm], want) and vals[nm].dtype.kind == want.dtype.kind):
             sig = classify.classify(prog, ("value", nm))
             ctx.fail(sig if sig in KNOWN else f"phase-differs:{nm}", {"program": prog, "phase": nm, "got_shape": list(vals[nm].shape), "want_shape": list(want.shape)},
@@ -231,6 +236,9 @@ def run(ctx, replay=None):
         "compared; distinct = (rule, before class, after class) and (phase, root class)"
     )
     if replay is not None:
+        if replay.get("case", {}).get("fusion"):  # failures of the fusion section (harness/props_ext/c02_fusion.py)
+            from harness.props_ext import c02_fusion
+            return c02_fusion.run_fusion(ctx, replay)
         prog = replay["case"]["program"]
         check_program(ctx, prog, P.run_np(prog)[prog[-1]["out"]])
         X.flush(ctx)
@@ -255,3 +263,8 @@ def run(ctx, replay=None):
         "squeeze, broadcast_to, sum/max/min incl. lowered PartialReduce, sequential cumsum); the others are checked by "
         "the computed before/after comparison only"
     )
+    # fusion clause (Props/C02Fusion.lean, driver family fu.*): see harness/props_ext/c02_fusion.py
+    from harness.props_ext import c02_fusion
+    c02_fusion.run_fusion(ctx)
+    from harness.props_ext import c02_rules2  # phase 3 rules (Props/C02Ext.lean; ru2.*)
+    c02_rules2.run_ext(ctx)
